@@ -161,8 +161,6 @@ def classify(route, kinds, tokens, detail):
                 _kinds_ok(K, (f"proj:{place}.checks",
                               "rewrite-exc:AttributeError") + COMMON_TAIL,
                           (f"proj:{place}.checks.len",)):
-            if place == "frame" and route == "script":
-                continue
             return "checks-keyed-by-name-duplicate-kind-collapsed"
 
     # ---- statistics that the writers cannot express ----------------------
@@ -223,5 +221,32 @@ def classify(route, kinds, tokens, detail):
 
 
 # coverage floors for the quick tier (about 1/4 of what the unchanged tree
-# gives); thorough uses 3x these
-FLOORS_QUICK = {}
+# gives with seed 0); thorough uses 3x these
+FLOORS_QUICK = {"probe:accept": 350, "probe:reject": 700,
+                "part:catalogue": 130, "part:random": 30,
+                "monitor:script:earlier-yaml-still-equal": 130}
+for _r in ("yaml", "json", "script"):
+    for _m in ("pandera-eq", "projection", "second-generation-text",
+               "verdict-vector"):
+        FLOORS_QUICK[f"monitor:{_r}:{_m}"] = 150
+    FLOORS_QUICK[f"monitor:{_r}:source-unchanged"] = 180
+    FLOORS_QUICK[f"roundtrip_ok:{_r}"] = 130
+for _k in ("equal_to", "not_equal_to", "greater_than",
+           "greater_than_or_equal_to", "less_than", "less_than_or_equal_to",
+           "in_range", "isin", "notin", "str_matches", "str_contains",
+           "str_startswith", "str_endswith", "str_length",
+           "unique_values_eq"):
+    FLOORS_QUICK[f"class:col.check:{_k}"] = 2
+for _k, _v in {"frame.strict": 1, "frame.ordered": 2, "frame.unique": 2,
+               "frame.title": 5, "frame.description": 5, "frame.name": 4,
+               "frame.dtype": 2, "frame.coerce": 1, "frame.check": 15,
+               "frame.check-opt": 8, "col.nullable": 2, "col.unique": 1,
+               "col.coerce": 2, "col.required": 2, "col.regex": 2,
+               "col.title": 5, "col.description": 6, "col.name": 8,
+               "col.check-opt": 30, "col.checks": 4, "idx.unique": 1,
+               "idx.nullable": 2, "idx.coerce": 1, "idx.title": 3,
+               "idx.description": 3, "idx.name": 50, "idx.check": 25,
+               "multiindex": 10, "index": 35}.items():
+    FLOORS_QUICK[f"feature:{_k}"] = _v
+for _o in ("ignore_na", "raise_warning", "n_failure_cases"):
+    FLOORS_QUICK[f"class:col.check-opt:{_o}"] = 8
